@@ -51,8 +51,8 @@ IdxDefined(q) ==
     IF q.op = "src" THEN TRUE
     ELSE CASE q.op \in {"merge", "unique"} -> FALSE
            [] q.op = "resetindex" -> FALSE
-           [] q.op \in {"groupby", "reduce", "len", "setindex", "valuecounts", "concat", "combinefirst"} -> TRUE
-           [] OTHER -> IdxDefined(q.c[1])
+           [] q.op \in {"groupby", "reduce", "len", "setindex", "valuecounts"} -> TRUE
+           [] OTHER -> IdxDefined(q.c[1])          \* concat / combine_first keep the labels of their inputs
 
 (***************************************************************************)
 (* Acceptance of an observed table against a reference table.              *)
